@@ -42,6 +42,7 @@ from vgi_rpc.rpc import (
     _get_auth_and_metadata,
     _log_method_error,
     _read_request,
+    _RequestFramingError,
     _truncate_error_message,
     _validate_call_signature,
     _validate_params,
@@ -244,7 +245,7 @@ def _run_stream_init_sync(
             # method raises past this point takes the ordinary error path.
             _validate_call_signature(info.name, kwargs, info.param_types, info.param_defaults, info.params_schema)
             _validate_params(info.name, kwargs, info.param_types)
-        except (pa.ArrowInvalid, TypeError, StopIteration, RpcError, VersionError) as exc:
+        except (pa.ArrowInvalid, _RequestFramingError, TypeError, StopIteration, RpcError, VersionError) as exc:
             raise _RpcHttpError(exc, status_code=HTTPStatus.BAD_REQUEST) from exc
         except Exception as exc:
             # External pointer resolution can fail before stream state exists.
